@@ -269,6 +269,30 @@ pub fn run_text_with_pkt(src: &str, pkt: Rc<crate::builtins::pcap::PcapPacket>) 
     }
 }
 
+/// Build a packet object from record header fields and captured bytes (hook).
+pub fn make_packet(sec: u32, usec: u32, caplen: u32, wirelen: u32, data: &[u8]) -> Rc<crate::builtins::pcap::PcapPacket> {
+    Rc::new(crate::builtins::pcap::PcapPacket::verif_new(sec, usec, caplen, wirelen, data.to_vec()))
+}
+
+/// the 16-byte little-endian pcap record header
+pub fn record_header(sec: u32, usec: u32, caplen: u32, wirelen: u32) -> Vec<u8> {
+    let mut v = Vec::with_capacity(16);
+    v.extend_from_slice(&sec.to_le_bytes());
+    v.extend_from_slice(&usec.to_le_bytes());
+    v.extend_from_slice(&caplen.to_le_bytes());
+    v.extend_from_slice(&wirelen.to_le_bytes());
+    v
+}
+
+/// serialise a packet the way pcap_write / write / filter output do
+pub fn packet_bytes(p: &Rc<crate::builtins::pcap::PcapPacket>) -> Result<Vec<u8>, PanicInfo> {
+    let p = p.clone();
+    catch(move || {
+        let v: Vec<u8> = p.as_ref().into();
+        v
+    })
+}
+
 /// REPL-style session: every entry is compiled against the symbol table,
 /// constants and globals left by the previous ones, exactly as `run_prompt`
 /// in src/main.rs does (including what it keeps after a failed entry).
